@@ -49,6 +49,12 @@ def tasks(tier):
         cfg = {"threshold": thr, "window": W, "recovery": R, "class_thresholds": ct, "trip_on": ["T"]}
         out.append({"family": "identity", "cfg": cfg, "entry": "CircuitBreaker", "bound": d_id,
                     "max_out": mo, "weight": 5})
+    # an instant that is not a multiple of the tick nor of a millisecond, just before the timeout
+    for thr, W, R in [(1, 4, 2), (2, 4, 3)]:
+        cfg = {"threshold": thr, "window": W, "recovery": R, "class_thresholds": {}, "trip_on": ["T"],
+               "frac_tick": True}
+        out.append({"family": "identity", "cfg": cfg, "entry": "CircuitBreaker", "bound": d_id - 2,
+                    "max_out": mo, "weight": 5})
     d_as = 7 if tier == "quick" else 9
     for thr, R, kinds in itertools.product([1, 2], [2, 3],
                                            [["call", "execute"], ["call0", "execute0", "abort0"],
@@ -74,6 +80,10 @@ def tasks(tier):
     for t in c06.tasks(tier):
         if t["family"] == "policy-seq":
             out.append(dict(t, family="policy-seq"))
+            if t["cfg"]["breaker"]["threshold"] == 1 and t["cfg"]["breaker"]["window"] == 4:
+                # the same histories with a breaker subclass whose truth value is False
+                cfg2 = dict(t["cfg"], breaker=dict(t["cfg"]["breaker"], falsy=True))
+                out.append(dict(t, family="policy-seq", cfg=cfg2))
     for thr, W, R in itertools.product([1, 2], [4], [2, 3]):
         cfg = {"threshold": thr, "window": W, "recovery": R, "class_thresholds": {}, "trip_on": ["T"]}
         out.append({"family": "raw", "cfg": cfg, "entry": "CircuitBreaker",
